@@ -108,6 +108,20 @@ def run(ctx):
     n = ctx.scale(120, 900)
     maxc = ctx.scale(4, 6)
     cases = [("g%d" % i, admgen.gen_case(ctx.rng, max_clients=maxc, par_prob=ctx.scale(0.35, 0.6))) for i in range(n)]
+    # the generator stays outside the finding classes: cross-check with the Lean class predicates
+    # (`qb_admission --classify`, the predicates the _partial theorems are stated with)
+    text = "".join("case %s\n%s\n" % (cid, "\n".join(ops)) for cid, ops in cases)
+    inside = set()
+    for cid, lines in vlib.split_cases(ctx.run_model("admission", text, args=("--classify",))).items():
+        for l in lines:
+            if " classes: " in l and not l.endswith(" classes: -"):
+                inside.add(cid)
+                ctx.count("classified:" + l.split(" classes: ")[1])
+    if inside:
+        ctx.warnings.append("%d generated cases fall into a finding class according to the model; dropped" % len(inside))
+        cases = [c for c in cases if c[0] not in inside]
+        n = len(cases)
+    ctx.count("classified-clean", n)
     for lo in range(0, n, 240):
         report_classes(diff(cases[lo:lo + 240], "random"))
         if ctx.violations or ctx.broken:
